@@ -385,21 +385,21 @@ pub fn dbg_texts<T: std::fmt::Debug>(x: &T) -> (String, String) {
 // are cloned into one heap block at offsets 0, 4, 8 and 12 modulo 16 (adjacent array elements,
 // a field behind a `u32`, a boxed value next to a stack value all differ like that).
 #[repr(C, align(16))]
-struct P0<T> {
+pub struct P0<T> {
     v: T,
 }
 #[repr(C, align(16))]
-struct P4<T> {
+pub struct P4<T> {
     pad: u32,
     v: T,
 }
 #[repr(C, align(16))]
-struct P8<T> {
+pub struct P8<T> {
     pad: u64,
     v: T,
 }
 #[repr(C, align(16))]
-struct P12<T> {
+pub struct P12<T> {
     pad: [u32; 3],
     v: T,
 }
@@ -428,6 +428,63 @@ pub fn eq_placed<T: PartialEq + Clone>(a: &T, b: &T) -> bool {
         });
     }
     e
+}
+
+// ---- where a generator lives ---------------------------------------------------------------
+// What a generator returns may not depend on its own address. The 19 seedable generator types are
+// held at offset 0 / 4 / 8 / 12 (modulo 16, as far as the type's alignment allows) of a 16-aligned
+// heap block; the slot comes from the run (`Spec.place`), a clone goes to the next slot.
+static PLACE: std::sync::atomic::AtomicU8 = std::sync::atomic::AtomicU8::new(0);
+pub fn set_place(p: u8) {
+    PLACE.store(p % 4, std::sync::atomic::Ordering::SeqCst);
+}
+pub enum Placed<T> {
+    A(Box<P0<T>>),
+    B(Box<P4<T>>),
+    C(Box<P8<T>>),
+    D(Box<P12<T>>),
+}
+impl<T> Placed<T> {
+    pub fn new(v: T) -> Placed<T> {
+        Placed::at(v, PLACE.load(std::sync::atomic::Ordering::Relaxed))
+    }
+    pub fn at(v: T, slot: u8) -> Placed<T> {
+        match slot % 4 {
+            0 => Placed::A(Box::new(P0 { v })),
+            1 => Placed::B(Box::new(P4 { pad: 0, v })),
+            2 => Placed::C(Box::new(P8 { pad: 0, v })),
+            _ => Placed::D(Box::new(P12 { pad: [0; 3], v })),
+        }
+    }
+    pub fn slot(&self) -> u8 {
+        match self {
+            Placed::A(_) => 0,
+            Placed::B(_) => 1,
+            Placed::C(_) => 2,
+            Placed::D(_) => 3,
+        }
+    }
+}
+impl<T> std::ops::Deref for Placed<T> {
+    type Target = T;
+    fn deref(&self) -> &T {
+        match self {
+            Placed::A(b) => &b.v,
+            Placed::B(b) => &b.v,
+            Placed::C(b) => &b.v,
+            Placed::D(b) => &b.v,
+        }
+    }
+}
+impl<T> std::ops::DerefMut for Placed<T> {
+    fn deref_mut(&mut self) -> &mut T {
+        match self {
+            Placed::A(b) => &mut b.v,
+            Placed::B(b) => &mut b.v,
+            Placed::C(b) => &mut b.v,
+            Placed::D(b) => &mut b.v,
+        }
+    }
 }
 
 // `==` is PROBED, not taken from a table: a type that gains a `PartialEq` implementation is compared
@@ -531,7 +588,7 @@ macro_rules! m_restore {
                 SnapFmt::JsonReader => serde_json::from_reader(ShortReader { data: $bytes, pos: 0 }).map_err(|e| e.to_string()),
                 SnapFmt::JsonValue => serde_json::from_slice::<serde_json::Value>($bytes).and_then(serde_json::from_value).map_err(|e| e.to_string()),
             };
-            r.map(|g| Box::new($w(g)) as Box<dyn DynGen>)
+            r.map(|g| Box::new($w(Placed::new(g))) as Box<dyn DynGen>)
         }
         #[cfg(not(feature = "snap"))]
         {
@@ -587,42 +644,42 @@ macro_rules! construct_m {
 macro_rules! det_gens {
     ($( $w:ident, $kind:ident, $t:ty, $eq:tt, $jump:tt, $snap:tt; )*) => {
         $(
-            pub struct $w(pub $t);
+            pub struct $w(pub Placed<$t>);
             impl DynGen for $w {
                 fn kind(&self) -> Kind { Kind::$kind }
-                fn next_u32(&mut self) -> u32 { if call_generic() { RngCore::next_u32(&mut self.0) } else { self.0.next_u32() } }
-                fn next_u64(&mut self) -> u64 { if call_generic() { RngCore::next_u64(&mut self.0) } else { self.0.next_u64() } }
-                fn fill_bytes(&mut self, dest: &mut [u8]) { if call_generic() { RngCore::fill_bytes(&mut self.0, dest) } else { self.0.fill_bytes(dest) } }
-                fn boxed_clone(&self) -> Box<dyn DynGen> { Box::new($w(if call_generic() { Clone::clone(&self.0) } else { self.0.clone() })) }
+                fn next_u32(&mut self) -> u32 { if call_generic() { RngCore::next_u32(&mut *self.0) } else { (*self.0).next_u32() } }
+                fn next_u64(&mut self) -> u64 { if call_generic() { RngCore::next_u64(&mut *self.0) } else { (*self.0).next_u64() } }
+                fn fill_bytes(&mut self, dest: &mut [u8]) { if call_generic() { RngCore::fill_bytes(&mut *self.0, dest) } else { (*self.0).fill_bytes(dest) } }
+                fn boxed_clone(&self) -> Box<dyn DynGen> { Box::new($w(Placed::at(if call_generic() { Clone::clone(&*self.0) } else { (*self.0).clone() }, self.0.slot() + 1))) }
                 fn clone_from_dyn(&mut self, src: &dyn DynGen) -> bool {
                     match src.as_any().downcast_ref::<$w>() {
-                        Some(o) => { if call_generic() { Clone::clone_from(&mut self.0, &o.0) } else { self.0.clone_from(&o.0) }; true }
+                        Some(o) => { if call_generic() { Clone::clone_from(&mut *self.0, &*o.0) } else { (*self.0).clone_from(&*o.0) }; true }
                         None => false,
                     }
                 }
                 fn eq_dyn(&self, other: &dyn DynGen) -> Option<bool> {
                     match other.as_any().downcast_ref::<$w>() {
-                        Some(o) => m_eq!($eq, self.0, o.0),
+                        Some(o) => m_eq!($eq, *self.0, *o.0),
                         None => None,
                     }
                 }
                 fn ne_dyn(&self, other: &dyn DynGen) -> Option<bool> {
                     match other.as_any().downcast_ref::<$w>() {
-                        Some(o) => m_ne!($eq, self.0, o.0),
+                        Some(o) => m_ne!($eq, *self.0, *o.0),
                         None => None,
                     }
                 }
-                fn jump(&mut self) -> bool { m_jump!($jump, self.0, jump) }
-                fn long_jump(&mut self) -> bool { m_jump!($jump, self.0, long_jump) }
-                fn snapshot(&self, fmt: SnapFmt) -> Option<Vec<u8>> { m_snap!($snap, &self.0, fmt) }
-                fn debug(&self) -> (String, String) { dbg_texts(&self.0) }
+                fn jump(&mut self) -> bool { m_jump!($jump, (*self.0), jump) }
+                fn long_jump(&mut self) -> bool { m_jump!($jump, (*self.0), long_jump) }
+                fn snapshot(&self, fmt: SnapFmt) -> Option<Vec<u8>> { m_snap!($snap, &*self.0, fmt) }
+                fn debug(&self) -> (String, String) { dbg_texts(&*self.0) }
                 fn as_any(&self) -> &dyn Any { self }
             }
         )*
 
         fn construct_inner(kind: Kind, seed: &SeedSpec) -> Constructed {
             match kind {
-                $( Kind::$kind => construct_m!($t, seed, |g: $t| Box::new($w(g)) as Box<dyn DynGen>, Constructed::Ok, Constructed::Err), )*
+                $( Kind::$kind => construct_m!($t, seed, |g: $t| Box::new($w(Placed::new(g))) as Box<dyn DynGen>, Constructed::Ok, Constructed::Err), )*
                 Kind::Jitter => panic!("harness: Jitter is not SeedableRng"),
             }
         }
